@@ -139,6 +139,8 @@ KNOB_CLASSES = {
     "relu_po2": lambda f, uv, ste: Q.quantized_relu_po2(4, qnoise_factor=f, use_variables=uv, use_ste=ste),
     "linear": lambda f, uv, ste: Q.quantized_linear(4, 1, qnoise_factor=f, use_variables=uv),
     "bits_auto": lambda f, uv, ste: Q.quantized_bits(4, 1, 1, alpha="auto_po2", qnoise_factor=f, use_variables=uv, use_ste=ste),
+    # the h-swish quantizer inherits the knob from quantized_bits: its unquantized activation is x * relu6(x + 3) / 6
+    "hswish": lambda f, uv, ste: Q.quantized_hswish(6, 2, 1, qnoise_factor=f, use_variables=uv),
     "bits_auto2": lambda f, uv, ste: Q.quantized_bits(5, 2, 1, alpha="auto", qnoise_factor=f, use_variables=uv, use_ste=ste),
 }
 
@@ -184,8 +186,12 @@ def knob_replay(behaviours, events, rnd, shard=0, nshards=1):
         yq = mk(1.0, False, ste)(xt).numpy()
         yc = mk(f, False, ste)(xt).numpy()
         sk = {"relu": ("lrelu", 2, 1, dy(1.75)), "relu_po2": ("lrelu", 0, 0, [0, 0])}.get(cls, ("id", 0, 0, [0, 0]))
-        ev = {"t": t, "a": "Call", "ste": int(ste or cls == "linear"), "cls": cls,
-              "sk": sk[0], "sl": sk[1], "hasb": sk[2], "b": sk[3],
+        sr = [[0, 0]] * len(x)
+        if cls == "hswish":       # reference surrogate, same float32 operations in numpy
+          sk = ("ref", 0, 0, [0, 0])
+          sr = [dy(v) for v in (x * np.minimum(np.maximum(x + np.float32(3.0), np.float32(0.0)), np.float32(6.0))) / np.float32(6.0)]
+        ev = {"t": t, "a": "Call", "ste": int(ste or cls in ("linear", "hswish")), "cls": cls,
+              "sk": sk[0], "sl": sk[1], "hasb": sk[2], "b": sk[3], "sr": sr,
               "x": [dy(v) for v in x], "y": [dy(v) for v in y], "ys": [dy(v) for v in ys],
               "yq": [dy(v) for v in yq], "yc": [dy(v) for v in yc]}
       ev.update({"built": int(bool(q.built)), "var": int(isinstance(q.qnoise_factor, tf.Variable)), "v20": r20(qval(q)),
